@@ -101,9 +101,14 @@ class Obligation:
         self.static = static
 
     def to_json(self):
+        info = {}
+        for k, v in (self.info or {}).items():
+            if k == 'watch':
+                continue
+            info[k] = v if isinstance(v, (str, int, float, bool, list, dict, type(None))) else str(v)
         return {'name': self.name, 'props': sorted(self.props), 'status': self.status,
                 'func': self.func, 'path': self.path, 'model': self.model, 'time': round(self.time, 4),
-                'info': self.info, 'static': self.static}
+                'info': info, 'static': self.static}
 
 
 class Env:
@@ -238,6 +243,7 @@ class Exec:
         self.global_objs = {}
         self.global_refs = {}
         self.yield_hook = None
+        self.last_snapshot_kind = 'seq'
         self.loop_havocs = []
 
     # -- fresh symbols --------------------------------------------------------
@@ -339,6 +345,12 @@ class Exec:
         if isinstance(goal, bool):
             status = 'proved' if goal else 'refuted'
             ob = Obligation(name, props, status, self.cur_func, self.path_id(), None, 0.0, info, static=True)
+            if not goal:
+                conds = self.engine.finding_conds.get(name)
+                if conds and all(L.is_true(L.simp(c(self))) for _, c in conds):
+                    ob.status = 'known'
+                    ob.info = dict(info or {})
+                    ob.info['known_findings'] = [fid for fid, _ in conds]
             self.obligations.append(ob)
             return goal
         goal_s = L.simp(goal)
@@ -350,23 +362,44 @@ class Exec:
         self.solver.add(z3.Not(goal_s))
         r = self.solver.check()
         model = None
+        matched = None
         if r == z3.sat:
             status = 'refuted'
             model = self.summarise_model(self.solver.model(), info)
+            # known findings: is every counterexample covered by the recorded failing branches?
+            conds = self.engine.finding_conds.get(name)
+            if conds:
+                fs = [(fid, c(self)) for fid, c in conds]
+                self.solver.add(z3.Not(z3.Or([f for _, f in fs])))
+                r2 = self.solver.check()
+                if r2 == z3.unsat:
+                    status = 'known'
+                    matched = [fid for fid, _ in fs]
+                elif r2 == z3.sat:
+                    model = self.summarise_model(self.solver.model(), info)
+                    model['outside_known_findings'] = True
+                else:
+                    status = 'unknown'
         elif r == z3.unsat:
             status = 'proved'
         else:
             status = 'unknown'
         self.solver.pop()
         ob = Obligation(name, props, status, self.cur_func, self.path_id(), model, time.time() - t0, info)
-        if status != 'proved':
+        if matched:
             ob.info = dict(info or {})
+            ob.info['known_findings'] = matched
+        if status not in ('proved', 'known'):
+            ob.info = dict(ob.info or info or {})
             ob.info['smt2'] = self.engine.dump_smt(self, goal_s) if self.engine.keep_smt else None
         self.obligations.append(ob)
         if self.engine.smt_sink is not None:
             self.engine.smt_sink(self, ob, goal_s)
         self.assume(goal_s)
         return status == 'proved'
+
+    def _unused(self):
+        pass
 
     def path_id(self):
         return ''.join('T' if d else 'F' for d in self.decisions[:self.pos])
